@@ -93,6 +93,27 @@ func init() {
 			default:
 				w = Generate(c.Tape, tierProfile(profC06, c.Tier))
 			}
+			// a quarter with scipipe's default logging (the program may then name its log
+			// file itself: NewWorkflowCustomLogFile)
+			w.FullLogging = c.Tape.Choose(simrt.StGen, 4, 0) == 1
+			switch bg := c.Tape.Choose(simrt.StGen, 16, 0); bg {
+			case 1, 2, 3:
+				// a command that leaves a helper behind which goes on working (and holds
+				// the command's output pipe): the helper is part of the executing task;
+				// in variant 2 it creates the output only after the command returned
+				// (the task then fails for a missing output: fine, only the bound is judged)
+				for i := range w.Nodes {
+					if n := &w.Nodes[i]; n.Kind == KProc && n.Custom == 0 && len(n.Outs) > 0 && !n.Outs[0].Stream && n.Name != "prod" && n.Name != "cons" {
+						if bg == 3 {
+							n.BgLate = true
+						} else {
+							n.BgTail = true
+						}
+						c.Fault("background-helper")
+						break
+					}
+				}
+			}
 			if c.Tape.Choose(simrt.StGen, 8, 0) == 1 {
 				// a second, smaller workflow in the same program (created after the
 				// first, run concurrently): 1 or 2 slots, three one-core tasks - each
